@@ -110,6 +110,28 @@ def gen_cases(ctx):
         s1 = perm_spec(s0)
         s2 = perm_spec(s1)
         cases.append({"kind": "triple", "specs": [s0, s1, s2]})
+    # tilted plane / Gaussian sources on a non-square source plane (azimuth / elevation are defined relative to the cyclic
+    # (horizontal, vertical) pair of the propagation axis, so they keep their values under the relabelling)
+    for i in range(ctx.pick(1, 3)):
+        rng = ctx.rng
+        a0 = i % 3 if not ctx.quick else rng.randint(0, 2)
+        shape = [0, 0, 0]
+        shape[a0], shape[(a0 + 1) % 3], shape[(a0 + 2) % 3] = 9, 4, 6
+        bt = {f"{sd}_{AX[a]}": ("pml" if a == a0 else "periodic") for a in range(3) for sd in ("min", "max")}
+        pol = [0.0, 0.0, 0.0]
+        pol[(a0 + 1) % 3], pol[(a0 + 2) % 3] = 1.0, rng.choice([0.0, 0.5])
+        blk = [[0, 0], [0, 0], [0, 0]]
+        blk[a0], blk[(a0 + 1) % 3], blk[(a0 + 2) % 3] = [5, 7], [1, 3], [2, 5]
+        det = [[0, 0], [0, 0], [0, 0]]
+        det[a0], det[(a0 + 1) % 3], det[(a0 + 2) % 3] = [3, 7], [0, 4], [1, 5]
+        s0 = {"shape": shape, "spacing": 5e-8, "steps": ctx.pick(6, 10), "bt": bt, "thickness": {f: (2 if v == "pml" else 1) for f, v in bt.items()},
+              "sources": [{"kind": "plane" if i % 2 == 0 else "gauss", "axis": a0, "pos": 3, "dir": rng.choice("+-"), "pol": pol, "radius": 1.5e-7,
+                           "az": rng.choice([20.0, -15.0]), "el": rng.choice([10.0, 25.0])}],
+              "detectors": [{"kind": "field", "box": det, "name": "fd", "opts": {"exact_interpolation": False}}],
+              "blocks": [{"box": blk, "eps": 2.25, "sigma_e": None}]}
+        s1 = perm_spec(s0)
+        s2 = perm_spec(s1)
+        cases.append({"kind": "triple", "specs": [s0, s1, s2]})
     # model tie: a small PML-free scene in three orientations, stepped by forward()
     m0 = {"shape": [3, 4, 5], "spacing": 5e-8, "courant": "exact_half", "steps": 2,
           "bt": {"min_x": "pec", "max_x": "pmc", "min_y": "periodic", "max_y": "periodic", "min_z": "pmc", "max_z": "pec"},
